@@ -30,6 +30,14 @@ fn closures() -> Vec<(&'static str, Vec<&'static str>, usize)> {
         ("predicate", vec!["f = x => x == a"], 1),
         ("captured-list-ops", vec!["l = [a, b]", "f = x => concat(l, [x])"], 1),
         ("data-capture-record", vec!["r = {v: a}", "f = x => [r.v, x]"], 1),
+        // a do-block statement that rebinds an outer name in terms of itself, with no other
+        // occurrence of that name in the body
+        ("do-rebind-from-itself", vec!["f = x => do {\n  a = [a, x]\n  return a\n}"], 1),
+        ("do-rebind-from-itself-nested", vec!["f = x => do {\n  r = do {\n    a = [a]\n    return a\n  }\n  return [r, x]\n}"], 1),
+        ("inner-lambda-do-rebind", vec!["f = x => do {\n  g = () => do {\n    b = [b, 1]\n    return b\n  }\n  return [g(), x]\n}"], 1),
+        ("escaping-closure-do-rebind", vec!["mk = base => do {\n  step = [base]\n  return n => do {\n    step = [step, 3]\n    return [n, base, step]\n  }\n}", "f = mk(a)"], 1),
+        ("escaping-closure", vec!["mk = base => do {\n  step = [base, b]\n  return n => [n, base, step]\n}", "f = mk(a)"], 1),
+        ("do-rebind-two-args", vec!["f = (x, y) => do {\n  a = [a, x, y]\n  return a\n}"], 2),
     ]
 }
 
@@ -335,7 +343,7 @@ pub fn run(ctx: &Ctx, replay: Option<&J>) -> i32 {
     finish(
         ctx,
         "model_checking",
-        "sessions = (definition-time values of a, b from a 4-pair pool) x 20 closure definitions (plain, curried, nested, defined in do-blocks, capturing closures and chains, self-recursive, shadowing locals / inner parameters, inputs, data captures); transitions = the same call f(args) (6-value argument pool) placed in 21 calling contexts (shadowing parameter / optional / rest parameter, do-locals, nested do, callbacks of via/map/into/reduce/where, f itself as callback, closure created under another a, record / list / conditional positions) after refused redefinitions of a and f; oracle = value at top level right after definition; arity: all 24 documented parameter-list shapes x argument counts 0..n+3 x plain / spread / mixed / into passing against a reference model; distinct = (closure, values, context, call) tuples",
+        "sessions = (definition-time values of a, b from a 4-pair pool) x 26 closure definitions (plain, curried, nested, defined in do-blocks, capturing closures and chains, self-recursive, shadowing locals / inner parameters, inputs, data captures); transitions = the same call f(args) (6-value argument pool) placed in 21 calling contexts (shadowing parameter / optional / rest parameter, do-locals, nested do, callbacks of via/map/into/reduce/where, f itself as callback, closure created under another a, record / list / conditional positions) after refused redefinitions of a and f; oracle = value at top level right after definition; arity: all 24 documented parameter-list shapes x argument counts 0..n+3 x plain / spread / mixed / into passing against a reference model; distinct = (closure, values, context, call) tuples",
         true,
         Some((states, evals, evals)),
     )
